@@ -697,11 +697,95 @@ def check_nan_poisoning(repo, rep):
     rep.floor(rid, 15)
 
 
+def check_constant_reproduced(repo, rep):
+    rid = "C15-R5"
+    rep.rule(rid, "every finite-window linear moving average of the selector reproduces a constant series: the expression of each element of "
+                  "ma(period=5 / 14, matype=k, sequential=True), evaluated on the constant valuation (every price = c, for two values of "
+                  "c; volume constant), is c - or NaN while the average is not defined yet.  For a linear filter this says that its weights "
+                  "sum to one at every position, warm-up included (a warm-up that is filled with zeros instead of NaN gives numbers that "
+                  "are no average of anything)")
+    from vlib.indic_vals import eval_dag, D
+    fn = repo.func("jesse/indicators/ma.py", "ma")
+    types = sorted({c.comparators[0].value for n_ in ast.walk(fn) if isinstance(n_, ast.If) for c in ([n_.test] if isinstance(n_.test, ast.Compare) else
+                                                                                                         (n_.test.values if isinstance(n_.test, ast.BoolOp) else []))
+                    if isinstance(c, ast.Compare) and isinstance(c.left, ast.Name) and c.left.id == "matype" and isinstance(c.comparators[0], ast.Constant)
+                    and isinstance(c.comparators[0].value, int)})
+    if len(types) < 25:
+        raise AnalysisError(f"ma(): only {len(types)} matype numbers recognised")
+    cnt = 0
+    # the selector's types, and every public indicator with the signature of an average (period, source_type, sequential) - whether it
+    # IS an average is decided below: its newest element reproduces the constant
+    subjects = [(f"ma(matype={k})", "jesse/indicators/ma.py", fn, {"matype": k}) for k in types]
+    for pn, prel, pfn in IR.public_indicators(repo):
+        names = [a.arg for a in pfn.args.args]
+        if pn != "ma" and {"period", "source_type", "sequential"} <= set(names) and not any("matype" in a for a in names):
+            subjects.append((pn, prel, pfn, {}))
+    for label, rel_, fn_, over0 in subjects:
+        k = label
+        for period in (5, 14):
+            n = 8 * period + 8          # long enough to tell a window function (a bounded look-back) from a recursive filter
+            r = IR.run_indicator(repo, rel_, fn_, n, True, overrides=dict(over0, period=period))
+            if r[0] == "raises":
+                continue            # documented: some numbers are not valid for candles / raise
+            if r[0] != "ok" or not isinstance(r[1], NA) or r[1].ndim != 1:
+                if label.startswith("ma("):
+                    rep.undecided_item(f"{label} period={period}: {r[0]} {str(r[1])[:60]}")
+                continue
+            # only finite-window LINEAR filters are held to this (a recursive filter has a start-up transient that the property
+            # exempts, a high-pass / oscillator "matype" is no average, an adaptive one need not be defined on a constant series):
+            # the newest element looks at a bounded window, and its expression is additive on two witness valuations
+            last = r[1].data[-1]
+            if not isinstance(last, D) or bin(last.m).count("1") > 3 * period + 3:
+                rep.instance(rid, f"matype={k}|period={period}|not-a-window-function")
+                continue
+            try:
+                va = lambda tag, i, col: 0.0 if col == 0 else (3.0 + (i * 7 % 5)) if col == 5 else 50.0 + (i * 13 % 11) + col
+                vb = lambda tag, i, col: 0.0 if col == 0 else (3.0 + (i * 7 % 5)) if col == 5 else 20.0 + (i * 5 % 7) * 1.5 + 2 * col
+                vab = lambda tag, i, col: va(tag, i, col) if col in (0, 5) else va(tag, i, col) + vb(tag, i, col)
+                fa, fb, fab = eval_dag(last, va), eval_dag(last, vb), eval_dag(last, vab)
+                if not all(isinstance(x, float) and x == x for x in (fa, fb, fab)) or abs(fab - fa - fb) > 1e-7 * max(1.0, abs(fab)):
+                    rep.instance(rid, f"matype={k}|period={period}|not-linear")
+                    continue
+                vc = lambda tag, i, col: 0.0 if col == 0 else 7.0 if col == 5 else 100.0
+                fc = eval_dag(last, vc)
+                if not (isinstance(fc, float) and abs(fc - 100.0) <= 1e-6 * 100.0):
+                    rep.instance(rid, f"matype={k}|period={period}|not-an-average")
+                    continue
+            except Undecided as e:
+                if label.startswith("ma("):
+                    rep.undecided_item(f"{label} period={period}: {e}")
+                continue
+            bad = None
+            try:
+                for c in (100.0, 37.5):
+                    val = lambda tag, i, col, c=c: (0.0 if col == 0 else 7.0 if col == 5 else c)
+                    for i, x in enumerate(r[1].data):
+                        v = eval_dag(x, val) if isinstance(x, D) else x
+                        if v is None or (isinstance(v, float) and v != v):
+                            continue
+                        if abs(v - c) > 1e-6 * c:
+                            bad = (i, v, c)
+                            break
+                    if bad:
+                        break
+            except Undecided as e:
+                if label.startswith("ma("):
+                    rep.undecided_item(f"{label} period={period}: {e}")
+                continue
+            cnt += 1
+            if bad:
+                rep.violation(rid, f"{k}|constant-series", f"{label} with period={period}, sequential=True, on a constant series of {bad[2]} has the value {bad[1]!r} at element {bad[0]}: "
+                                                                  f"neither the constant nor NaN (the average's weights do not sum to one there - e.g. a warm-up filled with zeros)")
+            rep.instance(rid, f"{k}|period={period}")
+    rep.floor(rid, 40)
+
+
 def run(repo: Repo, rep, tier: str):
     rep.assume("symbolic identities are for input length 12 (ma selector: 70) and periods 3/4/5; exact rational arithmetic; comparisons, max/min, abs, sqrt are canonical opaque atoms")
     rep.guarded(check_ma_selector, repo, rep)
     rep.guarded(check_witness_definitions, repo, rep)
     rep.guarded(check_nan_poisoning, repo, rep)
+    rep.guarded(check_constant_reproduced, repo, rep)
     rep.guarded(check_windowed, repo, rep)
     rep.guarded(check_recurrences, repo, rep)
     rep.undecided_item("numeric ranges of bounded oscillators, band ordering, non-negativity and price homogeneity (value properties; follow from the decided formulas only by further arithmetic reasoning)")
